@@ -632,6 +632,9 @@ def loader_details(P, R):
         in_loop = c.bid in f.reach([e.dst for e in f.out[c.bid]])
         a = c.ev['args'][0] if c.ev['args'] else None
         rv = root_var(a) if a is not None else None
+        if rv is not None and rv.get('sc') == 'local' and is_var(a):
+            sd = f.single_def(a['name'])        # `list = &conf.modules->value; ... module_load_list(list)`
+            rv = root_var(sd[1]) if sd and isinstance(sd[1], dict) else rv
         whole = rv is not None and rv.get('sc') not in ('local', 'param')
         R.ob('C20.WIRE.4', len(calls) == 1 and not in_loop and whole, c, 'the configured module list is handed to the loader once, as a whole (%s%s)' % (sx(a), ', inside a loop' if in_loop else ''), key='load-list-once')
     R.floor('C20.WIRE.4', 1, 'calls of the list loader')
